@@ -10,6 +10,6 @@ if ! git -C "$wt" apply "$patch" 2>/dev/null; then
   fi
 fi
 ev=$(mktemp -d /tmp/seedev.XXXXXX); cp /verif/known_findings.json "$ev"/
-out=$(VERIF_REPO="$wt" VERIF_DIR="$ev" /verif/bin/verifsa ${RULES:+-rules $RULES} check ALL 2>&1); r=$?
+out=$(VERIF_REPO="$wt" VERIF_DIR="$ev" ${VERIFSA:-/verif/bin/verifsa} ${RULES:+-rules $RULES} check ALL 2>&1); r=$?
 if [ $r -ne 0 ]; then echo "== exit=$r"; echo "$out" | grep -E "^\S+: \[[A-Z0-9a-z]+\] |CHECKER-FAILURE" | sed "s#$wt/##g" | cut -c1-330; fi
 rm -rf "$ev"; git -C /repo worktree remove --force "$wt"
